@@ -738,8 +738,22 @@ EvalTransition(r) ==
             wit |-> IF res.d2 > 0 THEN [H |-> res.w2.H, T |-> res.w2.T, anthem |-> "a transition axiom is false", reference |-> "H is below T"] ELSE <<>>,
             groups |-> 1, ident |-> IF nb.n = 0 THEN 1 ELSE 0, atoms |-> nb.n], "")>>
 
+\* ---------------------------------------------------------------- kind "roundtrip": C14, C15
+\* text0 -parse-> tree1 -print-> text2 -parse-> tree2 -print-> text3:  tree2 = tree1 and text3 = text2
+EvalRoundtrip(r) ==
+  IF r.stage = "parse1" THEN <<Skip(r, Prop \o ".reparse_gives_the_same_tree", "the input text is not accepted")>>
+  ELSE IF r.stage # "done"
+       THEN <<Out(r, Prop \o ".printed_text_is_accepted",
+                  BadT([note |-> "anthem does not accept the text it printed itself (" \o r.stage \o ")", error |-> r.problem, got |-> r.text2]), "")>>
+  ELSE <<Out(r, Prop \o ".printed_text_is_accepted", OkT, ""),
+         Out(r, Prop \o ".reparse_gives_the_same_tree",
+             IF r.tree1s = r.tree2s THEN OkT ELSE BadT([note |-> "the tree parsed from the printed text differs from the original tree", got |-> r.text2]), ""),
+         Out(r, Prop \o ".printing_is_stable",
+             IF r.text3 = r.text2 THEN OkT ELSE BadT([note |-> "printing the re-parsed tree gives other text", got |-> r.text3, expected |-> r.text2]), "")>>
+
 EvalRecord(r) ==
   CASE r.kind = "rule" -> EvalRule(r)
+    [] r.kind = "roundtrip" -> EvalRoundtrip(r)
     [] r.kind = "tptp" -> EvalTptp(r)
     [] r.kind = "tffproblem" -> EvalProblem(r) \o (IF r.strong THEN EvalTransition(r) ELSE <<>>)
     [] r.kind = "analyze" -> EvalAnalyze(r)
